@@ -130,7 +130,7 @@ class Gen:
     def sc_api(self):
         r = self.rng
         name = r.choice(NAMES)
-        k = self.login(name)
+        k = self.login(name, good=r.random() < 0.85)
         for _ in range(r.randint(1, 4)):
             self.maybe_mutate(name, 0.25)
             ep = r.choice([0, 1, 2, 2, 3, 4, 5, 6, 7, 8])
@@ -140,7 +140,8 @@ class Gen:
             if r.random() < 0.5:
                 # does the change (if it was allowed) show in a decision?
                 k2 = self.login(victim)
-                self.ev.append([10, r.choice([0, 1]), self.path(), A(k2), 0])
+                p2 = self.path()
+                self.ev.append([10, 0 if p2.lower() in self.published else r.choice([0, 1]), p2, A(k2), 0])
 
     def rtsp_seq(self, publish):
         return [2, 4, 6] if publish else [1, 3, 5]
@@ -189,7 +190,7 @@ class Gen:
         if publish and r.random() < 0.4:
             seq += [1, 3, 5]       # publish somewhere, then come back as a player on the switched path
         for m in seq:
-            self.maybe_mutate(name, 0.2)
+            self.maybe_mutate(name, 0.3)
             if m in (2, 6):
                 self.published.add(p2.lower()); self.published.add(p.lower())
             self.ev.append([8, c, m, p2 if m == 2 else p])
@@ -206,7 +207,7 @@ class Gen:
         if r.random() < 0.75:
             self.ev.append([7, 2, p, A(k), c]); joined = True
         for m in ([1, 3, 5] if r.random() < 0.8 else [r.choice([1, 2, 3, 4, 5, 6]) for _ in range(4)]):
-            self.maybe_mutate(name, 0.2)
+            self.maybe_mutate(name, 0.3)
             self.ev.append([9, c, m, p])
         if not joined or r.random() < 0.3:
             self.ev.append([7, 2, p, A(k), c])
@@ -330,7 +331,7 @@ def run(ck):
     if not ck.prepare():
         return ck.finish(rule="build failed")
     rng = ck.rng
-    n = 2500 if ck.thorough else 330
+    n = 8000 if ck.thorough else 900
     cases = [Gen(rng).build(ck.thorough) for _ in range(n)]
     # fixed regression histories: one per repaired defect, always part of the run
     cases = REGRESSIONS + cases
@@ -391,6 +392,14 @@ REGRESSIONS = [
             [6, 0, 3, "/a/b", _c("bob")], [6, 0, 5, "/a/b", _c("ann")], [6, 0, 5, "/a/b", _c("bob")], [6, 0, 5, "/a/b", _c("bob")]]],
     [_env, [[5], [6, 0, 2, "/p/q", _c("ann")], [6, 0, 4, "/p/q", _c("ann")], [0, "ann", PWS["ann"], 0, "/zz", "/x", 0], [6, 0, 6, "/p/q", _c("ann")],
             [0, "ann", PWS["ann"], 0, "/p/q", "/x", 0], [6, 0, 6, "/p/q", _c("ann")], [3, "root", PWS["root"]], [10, 0, "/p/q", A(0), 0]]],
+    # the user is deleted (and re-created with other rights) after the WebSocket upgrade
+    [_env, [[3, "bob", PWS["bob"]], [7, 0, "/a/b", A(0), 0], [1, "bob"], [8, 0, 1, "/a/b"], [0, "bob", PWS["bob"], 0, "", "/x", 1],
+            [8, 0, 1, "/a/b"], [0, "bob", PWS["bob"], 0, "", "/a/+", 0], [8, 0, 1, "/a/b"], [8, 0, 3, "/a/b"], [1, "bob"], [8, 0, 5, "/a/b"]]],
+    [_env, [[3, "bob", PWS["bob"]], [7, 1, "/a/b", A(0), 0], [7, 2, "/a/b", A(0), 0], [9, 0, 1, "/a/b"], [9, 0, 3, "/a/b"], [1, "bob"],
+            [9, 0, 5, "/a/b"], [0, "bob", PWS["bob"], 0, "", "/a/b", 1], [9, 0, 5, "/a/b"]]],
+    # logins: wrong / empty password for an administrator and a plain user, unknown user, then the would-be tokens
+    [_env, [[3, "root", "wrong"], [3, "root", ""], [3, "bob", PWS["ann"]], [3, "nobody", "x"], [3, "", "x"], [11, 1, A(0), _u("bob", 0, "", ""), 0, "bob"],
+            [3, "ROOT", PWS["root"]], [11, 1, A(0), _u("bob", 0, "", ""), 0, "bob"], [11, 3, A(0), _u("bob", 0, "", ""), 0, "eve"], [3, "eve", PWS["eve"]]]],
     # tokens: superseded, refresh-as-access, expiry on both clocks, deleted user, roles
     [_env, [[3, "bob", PWS["bob"]], [4, R(0)], [10, 0, "/a/b", A(0), 0], [10, 0, "/a/b", A(1), 0], [10, 0, "/a/b", R(1), 0], [4, A(1)], [2, 7000],
             [10, 1, "/a/b", A(1), 0], [2, 200], [10, 1, "/a/b", A(1), 0], [4, R(1)], [11, 1, A(2), _u("bob", 0, "", ""), 0, "bob"],
